@@ -190,7 +190,8 @@ def _expand(call: ast.Call, helper: ast.FunctionDef, tag: str, at: ast.stmt):
             bound[p] = copy.deepcopy(dmap[p])
             defaulted.append(p)
     DEFAULTED.append((helper.name, tuple(defaulted), at.lineno, call))
-    mapping = {n: f'__{tag}_{n}' for n in _locals_of(helper)}
+    # fields of an inlined object (sa/objinline.py) are shared by all its methods: never renamed per call
+    mapping = {n: f'__{tag}_{n}' for n in _locals_of(helper) if not n.startswith('__o')}
     stored = {n.id for n in ast.walk(helper) if isinstance(n, ast.Name) and isinstance(n.ctx, (ast.Store, ast.Del))}
     pre: List[ast.stmt] = []
     for p in allp:
@@ -467,6 +468,11 @@ def inline_new_helpers(tree: ast.Module, module: str) -> int:
     generators = {n.name: n for n in tree.body if isinstance(n, ast.FunctionDef) and n.name not in known and _simple_generator(n)}
     inl = _Inliner(helpers, generators)
     nested_known = {x.split(':', 1)[1] for x in frozen.get('<nested>', []) if x.startswith(module + ':')}
+    from .objinline import ObjectInliner, new_private_classes
+    obj = None
+    classes = new_private_classes(tree, set(frozen.get('<classes>', {}).get(module, [])))
+    if classes:
+        obj = ObjectInliner(classes)
 
     def process(fn: ast.FunctionDef):
         # new local closures (nested defs that are not in the frozen table) are helpers for the body of `fn` only
@@ -479,16 +485,33 @@ def inline_new_helpers(tree: ast.Module, module: str) -> int:
         saved = inl.helpers
         if local:
             inl.helpers = {**saved, **local}
-        fn.body = inl.block(fn.body, fn.name)
+        for _round in range(3):
+            if obj is not None and obj.rewrite_function(fn):
+                # methods of inlined objects become helpers (when they can be brought to a single exit)
+                for hn, hf in obj.helpers.items():
+                    if hn not in inl.helpers:
+                        nh = _normalised_helper(hf)
+                        if nh is not None:
+                            inl.helpers[hn] = nh
+                            saved.setdefault(hn, nh)
+            before = inl.done
+            fn.body = inl.block(fn.body, fn.name)
+            if inl.done == before or obj is None:
+                break
         inl.helpers = saved
 
+    targets = []
     for n in tree.body:
         if isinstance(n, ast.FunctionDef) and n.name not in helpers and n.name not in generators:
-            process(n)
-        elif isinstance(n, ast.ClassDef):
+            targets.append(n)
+        elif isinstance(n, ast.ClassDef) and n.name not in classes:
             for m in n.body:
                 if isinstance(m, ast.FunctionDef):
-                    process(m)
+                    targets.append(m)
+    if not helpers and not generators and not classes and not any(isinstance(st, ast.FunctionDef) for t in targets for st in t.body):
+        return 0
+    for t in targets:
+        process(t)
     ast.fix_missing_locations(tree)
     tree._inline_defaulted = inl.defaulted       # [(owner function, helper, params left at default, line, call text)]
     return inl.done
